@@ -3,7 +3,7 @@ CONSTANTS
     EpochOrderStrict = FALSE
     CacheSound = FALSE
     MaxAlter = 1
-    TamperFields = {"prev", "epoch", "avk", "params", "nextAvk", "nextParams"}
+    TamperFields = {"resign", "prev", "epoch", "avk", "params", "nextAvk", "nextParams"}
     ForgeEpochs = {2, 3, 4}
     Forge2Pars = {"q"}
     ForgeKeys = {"A", "H4"}
